@@ -8,10 +8,11 @@
 (* is inferred (\E s0), wrong guesses die at the next row's ObsIsCurrent.       *)
 EXTENDS Integers, Sequences, FiniteSets, TLC, TLCExt, Json, IOUtils
 
-VARIABLES cfg, es, ps, rows, adv, ret, seen, tid, l, rej
+VARIABLES cfg, es, ps, rows, adv, ret, seen, stats, tid, l, rej
 O == INSTANCE OnPolicy
 M == INSTANCE MDP
-vars == <<cfg, es, ps, rows, adv, ret, seen, tid, l, rej>>
+S == INSTANCE EpisodeStats
+vars == <<cfg, es, ps, rows, adv, ret, seen, stats, tid, l, rej>>
 
 Traces == JsonDeserialize(IOEnv.TRACE_FILE)
 Tr == Traces[tid].rows
@@ -19,6 +20,7 @@ Fin == Traces[tid].final
 
 TInit == /\ TLCSet(1, {}) /\ TLCSet(2, {})
          /\ tid \in 1..Len(Traces) /\ l = 1 /\ rej = <<>>
+         /\ stats = Traces[tid].init.stats
          /\ O!Init(Traces[tid].cfg,
                    [s |-> Traces[tid].init.s, cnt |-> Traces[tid].init.cnt], Traces[tid].init.ps)
 
@@ -39,6 +41,8 @@ FailedRow(row) == LET c == RowClauses(row) IN {n \in DOMAIN c : ~c[n]}
 
 TStep == /\ l >= 1 /\ l <= Len(Tr) /\ FailedRow(Tr[l]) = {}
          /\ \E s0 \in M!InitSet : O!CollectStep(Tr[l].act, s0)
+         \* the logging callback is told the *environment's* reward and the done flag of this step (C19)
+         /\ LET f == O!StepFacts(es, Tr[l].act) IN stats' = S!NextStats(stats, f.so.rew, f.done, cfg.an)
          /\ l' = l + 1 /\ UNCHANGED <<tid, rej>>
 
 FinClauses ==
@@ -46,19 +50,22 @@ FinClauses ==
   [CarriedEnvStateMatches    |-> es = [s |-> Fin.s, cnt |-> Fin.cnt],
    CarriedPolicyStateMatches |-> ps = Fin.ps,
    AdvantagesAreGAE          |-> \A t \in 1..cfg.H : Fin.adv[t] = O!G!ScanAdv(c, t),
-   ReturnsAreAdvPlusValue    |-> \A t \in 1..cfg.H : Fin.ret[t] = O!G!ScanRet(c, t)]
+   ReturnsAreAdvPlusValue    |-> \A t \in 1..cfg.H : Fin.ret[t] = O!G!ScanRet(c, t),
+   StatsStepCountIsCumulative          |-> Fin.stats.step = stats.step,
+   StatsEpisodeAccumulatorsSinceLastDone |-> Fin.stats.ret = stats.ret /\ Fin.stats.len = stats.len /\ Fin.stats.latch = stats.latch,
+   StatsAveragesUpdatedOnlyAtEpisodeEnds |-> Fin.stats.avgR = stats.avgR /\ Fin.stats.avgL = stats.avgL]
 FailedFin == LET c == FinClauses IN {n \in DOMAIN c : ~c[n]}
 
 TPost == /\ l = Len(Tr) + 1 /\ FailedFin = {}
          /\ O!PostCollect
-         /\ l' = l + 1 /\ UNCHANGED <<tid, rej>>
+         /\ l' = l + 1 /\ UNCHANGED <<tid, rej, stats>>
 
 TReject == /\ l >= 1 /\ l <= Len(Tr) + 1
            /\ LET bad == IF l <= Len(Tr) THEN FailedRow(Tr[l]) ELSE FailedFin IN
               /\ bad # {}
               /\ rej' = <<l, bad>>
            /\ l' = 0
-           /\ UNCHANGED <<cfg, es, ps, rows, adv, ret, seen, tid>>
+           /\ UNCHANGED <<cfg, es, ps, rows, adv, ret, seen, stats, tid>>
 
 TNext == TStep \/ TPost \/ TReject
 TSpec == TInit /\ [][TNext]_vars
